@@ -974,6 +974,21 @@ fn payload(class: &str, rng: &mut StdRng, salt: u64) -> Vec<u8> {
             v.extend(rand_bytes(rng, 40));
             v
         }
+        "text_edge" => {
+            let v = [
+                "\u{feff}starts with a byte order mark",
+                "\u{feff}",
+                "\u{feff}\u{feff}two of them, and one at the end\u{feff}",
+                "\0starts with NUL",
+                "  leading and trailing blanks \t ",
+                "ends with line ends\r\n\n",
+                "\n",
+                "\u{301}starts with a combining mark",
+                "\u{fffe}noncharacters\u{ffff}",
+                "\u{200b}zero width\u{2028}separators\u{2029}",
+            ];
+            v[(salt % v.len() as u64) as usize].as_bytes().to_vec()
+        }
         "text_8k" => {
             let words = ["lorem", "ipsum", "dolor", "sit", "amet", "consectetur", "adipiscing", "elit", "0123456789", "\n"];
             let mut s = String::new();
